@@ -17,6 +17,14 @@ add('C17', 'exploration',
     'lists every (exception type, raising function) pair and event type observed.',
     'Trusts CPython, hpack, hyperframe; inputs limited to what the generators reach.')
 
+add('C18', 'fault_enumeration',
+    'runtime monitoring: GOAWAY trace oracle on every raising receive_data + constructed violation catalogue with RFC code table',
+    'Catalogue of ~80 constructed violation kinds x 9 stream states x both roles is enumerated completely on every run '
+    '(class known by construction, expected RFC code set per class); plus random hostile traffic delivered frame by frame '
+    'where every raise must yield exactly one GOAWAY, last in the output, code == exception code, last-stream-id == highest '
+    'peer-opened id. Held/violated on those executions only.',
+    'Expected-code table written from RFC 7540 sections 4-6; last-stream-id oracle accepts the offending stream-opening frame id.')
+
 NOT_BUILT_REASON = 'check not built yet in this session (planned in DESIGN.md; no verdict claimed)'
 
 def main():
